@@ -43,7 +43,7 @@ def _case(draw):
         sizes=draw(st.lists(st.integers(1, 4), min_size=1, max_size=6)),
         dims=draw(st.sampled_from([1, 2, 3])),
         G=3 if big else draw(st.sampled_from([3, 5, 2, 8, 24, 11])),
-        values=draw(gen.st_values_spec(regimes=("moderate", "ties", "flat", "spiky"))),
+        values=draw(gen.st_values_spec(regimes=("moderate", "ties", "flat", "spiky", "dimshift"))),
         reps=[draw(gen.st_repr()) for _ in range(3)],
         alpha0=draw(st.sampled_from([None, 3.0, 0.2, None])),
     )
